@@ -180,6 +180,17 @@ func resolveUpdate(w *World, op Op, st Stored) *Request {
 	case "origin_prefix":
 		origin = ld.Origin + "x"
 		r.SigValid = 0
+	case "origin_bare":
+		// the part of the configured origin in front of its shard or path suffix ("name - 123" -> "name", "host/path" -> "host"):
+		// another origin, correctly signed with this log's key
+		if name, _, ok := strings.Cut(ld.Origin, " - "); ok {
+			origin = name
+		} else if host, _, ok := strings.Cut(ld.Origin, "/"); ok {
+			origin = host
+		} else {
+			origin = ld.Origin[:len(ld.Origin)/2]
+		}
+		r.SigValid = 0
 	case "origin_ws":
 		// the configured origin up to surrounding white space - a different origin, correctly signed with this log's key
 		ws := []string{" ", "\t", "\u00a0", "\r", "\u2003", "\ufeff", "  ", "\u3000"}[op.MV%8]
